@@ -214,6 +214,9 @@ def write_sim_files(out_dir, world, program, sim):
 # ----------------------------------------------------------------------------------------------
 # permuting os.scandir
 # ----------------------------------------------------------------------------------------------
+_REAL_SCANDIR = os.scandir
+
+
 class _Scan:
     def __init__(self, entries):
         self._e = entries
@@ -331,6 +334,7 @@ class _StubManager:
         self.summary_stats_manager = manager
         self.summary_visualization_manager = _NoVis()
         self.sim_params = {pdc.Sim_Setting_Params.PROCESS: 2}
+        self.out_dir = out_dir
         self._world = world
         self._out = out_dir
         self._hook = hook
@@ -353,24 +357,25 @@ def _fake_simulate(out_dir, world, program, sim):
     assert written == planned_files(world, program, sim)
 
 
-def run_world(world, rng, mode="shuffle"):
-    """returns dict(events=[...], batches=[...], final={ts, emis, cost}, error=None|str)
+def run_world(world, rng, mode="shuffle", out=None):
+    """One run as ldar_sim_run does it: SimulationManager.initialize_outputs (real), then the batch
+    loop, then the cost summary.  `out`: an output folder that is kept afterwards (a history of runs
+    into the same folder); default: a fresh path that does not exist yet, removed afterwards.
+    returns dict(events=[...], batches=[...], final={ts, emis, cost}, error=None|str)
     events, in order:  ("write", program, sim, [(kind, name), ...])
                        ("gen", clear_flag, [(path, [names...]), ...] scandir log of that call,
                         snapshot {ts: rows, emis: rows, dirs: {program: sorted names}})
                        ("gen-crash", clear_flag, exception name)  the call raised; the run stops
     error: "gen:<Exception>" when gen_summary_outputs raised, "cost:<Exception>" when the cost
     summary raised"""
-    tmp = tempfile.mkdtemp(prefix="c14_")
-    out = Path(tmp) / "out"
-    os.makedirs(out)
+    tmp = None
+    if out is None:
+        tmp = tempfile.mkdtemp(prefix="c14_")
+        out = Path(tmp) / "out"
+    out = Path(out)
     events = []
     log = []
     try:
-        if world.get("logs", True):
-            os.mkdir(out / "Logs")
-            with open(out / Output_Files.PARAMETER_FILE, "w") as fh:
-                fh.write("x: 1\n")
         (cfg, years, programs), pristine = shared_inputs(world)
         manager = SummaryOutputManager(out, cfg, years, programs)
 
@@ -385,9 +390,10 @@ def run_world(world, rng, mode="shuffle"):
             for p in world["programs"]:
                 d = out / p
                 dirs[p] = sorted(os.listdir(d)) if d.exists() else None
+            top = sorted((e.name + ("/" if e.is_dir() else "")) for e in _REAL_SCANDIR(out)) if out.exists() else []
             return {"ts": read_summary(out / (Output_Files.SummaryFileNames.TS_SUMMARY + ".csv")),
                     "emis": read_summary(out / (Output_Files.SummaryFileNames.EMIS_SUMMARY + ".csv")),
-                    "dirs": dirs}
+                    "dirs": dirs, "top": top}
 
         def gen(clear_outputs=False):
             start = len(log)
@@ -409,6 +415,11 @@ def run_world(world, rng, mode="shuffle"):
         try:
             with permuted_scandir(rng, log, str(out), mode), contextlib.redirect_stdout(io.StringIO()):
                 try:
+                    SM.SimulationManager.initialize_outputs(stub, input_manager=None, write_parameters=False)
+                    if world.get("logs", True):  # what setup_logging_to_output / write_parameters leave there
+                        os.makedirs(out / "Logs", exist_ok=True)
+                        with open(out / Output_Files.PARAMETER_FILE, "w") as fh:
+                            fh.write("x: 1\n")
                     SM.SimulationManager.run_simulations(stub, not world.get("multiprocessing", False))
                 except Exception as e:
                     if events and events[-1][0] == "gen-crash":
@@ -428,5 +439,26 @@ def run_world(world, rng, mode="shuffle"):
                    if a != b]
         return {"events": events, "final": final, "error": error, "mutated_inputs": mutated,
                 "batches": list(batch_simulations(world["n"]))}
+    finally:
+        if tmp is not None:
+            shutil.rmtree(tmp, ignore_errors=True)
+
+
+def run_history(worlds, rng, mode="shuffle", junk=None):
+    """several runs, one after the other, into the SAME output folder (what re-running a parameter
+    file does).  junk: optional {relative path: text} put into the folder before the first run (an
+    arbitrary prior folder state: summary files of a foreign run, stale program folders, ...).
+    returns the list of run_world results"""
+    tmp = tempfile.mkdtemp(prefix="c14h_")
+    out = Path(tmp) / "out"
+    try:
+        if junk is not None:
+            os.makedirs(out)
+            for rel, text in junk.items():
+                path = out / rel
+                os.makedirs(path.parent, exist_ok=True)
+                with open(path, "w") as fh:
+                    fh.write(text)
+        return [run_world(w, rng, mode, out=out) for w in worlds]
     finally:
         shutil.rmtree(tmp, ignore_errors=True)
